@@ -468,3 +468,32 @@ Definition check_scen (ansi partial : re) (scan : bool) (s : scen) (o : obs) : b
   | Blocks => o_code o =? 1
   | OutOfFuel => false
   end.
+
+(* ---------------------------------------------------------------------------------------------- *)
+(* a history in segments: the prompt pattern is CHANGED between operations (conn.comms_prompt_pattern = ..., the
+   channel's arguments, update_privilege_levels() after editing a level pattern).  Every segment runs under the
+   pattern in force - the channel reads the pattern text at each use - on the world the previous one left: device,
+   transport (read index, bytes delivered, unread residue) and carried-over escape sequence go on *)
+Definition seg := (re * list op)%type.
+
+Fixpoint run_segs (mk : re -> cfg) (e : env) (segs : list seg) (w : world) : list opres * outcome world :=
+  match segs with
+  | [] => ([], Ok w)
+  | (r, ops) :: rest =>
+      match run_ops (mk r) e ops w with
+      | (rs, Ok w') => let (rs', fin) := run_segs mk e rest w' in (rs ++ rs', fin)
+      | (rs, fin) => (rs, fin)
+      end
+  end.
+
+(* correspondence interface for such histories: [s_pat] / [s_ops] of the scenario are not used, the segments are *)
+Definition check_segs (ansi partial : re) (scan : bool) (s : scen) (segs : list seg) (o : obs) : bool :=
+  let (rs, fin) := run_segs (fun r => re_cfg r ansi partial scan (s_depth s) (s_ret s)) (scen_env s) segs
+                            (world0 (s_pending0 s) (s_delivered0 s)) in
+  list_beq opres_beq rs (o_res o) &&
+  match fin with
+  | Ok w => (o_code o =? 0) && beq (w_pending w) (o_residue o) && list_beq pair_beq (d_log (w_dev w)) (o_log o)
+            && beq (w_written w) (o_written o) && Bool.eqb (dev_ready (w_dev w)) (o_ready o)
+  | Blocks => o_code o =? 1
+  | OutOfFuel => false
+  end.
